@@ -37,6 +37,26 @@ def kernels_workload(r):
     from .c01 import random_family
     ops = []
     box = (0, 0, 6, 6)
+    # polygons with many rings and multipolygons with many parts, projected-metre-like coordinates with fractions (sums whose low
+    # bits depend on the order of addition): a per-element measure is one sequential sum, whatever the thread count
+    rr = __import__("random").Random(r.randrange(10 ** 9))
+
+    def ring(cx, cy, s, ccw=True):
+        pts_ = [(cx, cy), (cx + s, cy + s / 7), (cx + s * 1.1, cy + s), (cx + s / 9, cy + s * 0.9), (cx, cy)]
+        pts_ = pts_ if ccw else pts_[::-1]
+        return [c for p_ in pts_ for c in p_]
+    many = []
+    for _ in range(60):
+        bx, by = 2.0e7 + rr.random() * 1e5, 4.0e6 + rr.random() * 1e5
+        many.append([ring(bx, by, 5000.37)] + [ring(bx + 300.13 * (k + 1), by + 217.71 * (k + 1), 50.0 + rr.random(), ccw=False)
+                                               for k in range(rr.randint(3, 12))])
+    parr = geo.make_array("polygon", many, "float64")
+    marr = geo.make_array("multipolygon", [[p_] + [[ring(1.0e7 + rr.random() * 1e4, 5.0e6 + rr.random(), 33.3 + rr.random())]
+                                                    for _ in range(rr.randint(2, 9))] for p_ in many], "float64")
+    for nm, a_ in (("polygon", parr), ("multipolygon", marr)):
+        ops.append((f"{nm}.area(many rings, fractional coordinates)", (lambda a=a_: np.asarray(a.area))))
+        ops.append((f"{nm}.length(many rings, fractional coordinates)", (lambda a=a_: np.asarray(a.length))))
+        ops.append((f"{nm}.scalar area of elements 0, 1", (lambda a=a_: np.asarray([a[0].area, a[1].area]))))
     for kind in geo.KINDS:
         els = random_family(kind, r, 400, 12) + [None]
         arr = geo.make_array(kind, els, "float64")
